@@ -136,10 +136,12 @@ def rand_step_case(rng, name, names, safe):
         st["float"] = fl if rng.random() < 0.5 else [fbits(rng.choice([0.0, 0.25, 0.5, 0.75, 1.0, 2.0])) for _ in fl]
     if name == "CODE.RAND" and st["int"] and rng.random() < 0.7:
         st["int"][0] = rng.choice([0, 1, -1, 2, 3, 5, 24, 25, 26, 100, MIN, MAX])
-    if rng.random() < 0.3:
+    if rng.random() < (0.6 if name == "CODE.RAND" else 0.3):
         c = list(DEFAULT_CFG)
-        c[2], c[3] = rng.choice([(10, -10), (0, 0), (-5, 5), (MAX, MIN), (1, 0), (MAX, MAX - 1)])
-        c[0], c[1] = rng.choice([(fbits(1.0), fbits(-1.0)), (fbits(0.0), fbits(0.0)), (PINF, NINF), (NAN, fbits(0.0)), (fbits(3e38), fbits(-3e38)), (fbits(-1.0), fbits(1.0))])
+        # (max, min): legal pairs whose upper bound is not positive are included (a generator that samples 0..max would fail there)
+        c[2], c[3] = rng.choice([(10, -10), (0, 0), (-5, 5), (MAX, MIN), (1, 0), (MAX, MAX - 1), (0, -10), (-5, -50), (MIN + 1, MIN), (-1, -2)])
+        c[0], c[1] = rng.choice([(fbits(1.0), fbits(-1.0)), (fbits(0.0), fbits(0.0)), (PINF, NINF), (NAN, fbits(0.0)), (fbits(3e38), fbits(-3e38)), (fbits(-1.0), fbits(1.0)),
+                                 (fbits(-1.0), fbits(-2.0)), (fbits(0.0), fbits(-1.0)), (0x80000000, fbits(-1.0)), (fbits(1e-40), fbits(0.0))])
         c[7] = rng.choice([fbits(0.001), fbits(0.0), fbits(1.0), NAN, fbits(0.5)])
         c[8] = rng.choice([25, 0, 1, 2, -25, MIN, MAX])
         st["cfg"] = c
